@@ -989,8 +989,8 @@ func (s *Sim) genEvmTx(deploy bool) *TxSpec {
 	if deploy {
 		// "empty-runtime": the constructor runs and returns no code (a deployment that succeeds and leaves
 		// an account without code); "raw-stop": the init code is a single STOP
-		progs := [][]byte{progStore(r), progForward(), progReverter(), progBalanceReader(), progSuicide(), progForwardAll(), progProbeRevert(), progCallIgnoring(), {}, nil, progBlockEnv(), nil}
-		names := []string{"store", "forward", "reverter", "balance-reader", "suicide", "forward-all", "probe-revert", "call-ignoring", "empty-runtime", "raw-stop", "block-env", "raw-constructor-selfdestructs"}
+		progs := [][]byte{progStore(r), progForward(), progReverter(), progBalanceReader(), progSuicide(), progForwardAll(), progProbeRevert(), progCallIgnoring(), {}, nil, progBlockEnv(), nil, progPickyReceiver(), progRetryCaller()}
+		names := []string{"store", "forward", "reverter", "balance-reader", "suicide", "forward-all", "probe-revert", "call-ignoring", "empty-runtime", "raw-stop", "block-env", "raw-constructor-selfdestructs", "picky-receiver", "retry-caller"}
 		i := r.Intn(len(progs))
 		t := s.baseTx(6, from, make([]byte, 20))
 		t.Data = deployer(progs[i])
@@ -1007,6 +1007,14 @@ func (s *Sim) genEvmTx(deploy bool) *TxSpec {
 	}
 	c := s.contracts[r.Intn(len(s.contracts))]
 	s.watchAddr(make([]byte, 20)) // calls without data make the programs use address 0
+	if picky, retry := s.contractOf("picky-receiver"), s.contractOf("retry-caller"); picky != nil && retry != nil && r.Intn(5) == 0 {
+		// a call whose first inner call (no value) is reverted by the callee and whose second inner call
+		// (with the value) to the SAME, by then warm, callee succeeds: the value must arrive
+		t := s.baseTx(6, from, retry)
+		t.Data, t.Amount = word(picky), fmt.Sprint(1000+r.Intn(9000))
+		t.Gas, t.Note = uint64(200000+r.Intn(200000)), "evm-inner-call-reverts-then-succeeds-with-value"
+		return t
+	}
 	if probe, outer := s.contractOf("probe-revert"), s.contractOf("call-ignoring"); probe != nil && outer != nil && r.Intn(5) == 0 {
 		// a successful call whose inner frame is the first to look at account X and then reverts
 		x := s.pick(s.all)
